@@ -1221,9 +1221,11 @@ class Model:
                         numeric_groups.append({})
                     idx = numeric_group_sets.index(numeric_set)
                     # Prevent full encoding when numeric part is present outside
-                    # this numeric-categoric interaction
-                    if numeric_part in components:
-                        numeric_groups[idx][numeric_part] = []
+                    # this numeric-categoric interaction (whatever the order of its components)
+                    for name, kinds in components.items():
+                        names = set(kinds) if isinstance(kinds, dict) else {name}
+                        if names == numeric_set and name not in numeric_groups[idx]:
+                            numeric_groups[idx][name] = []
                     numeric_groups[idx][k] = categoric
 
         return [categoric_group] + numeric_groups
